@@ -335,6 +335,15 @@ func Bin(op Op, a, b *Term) *Term {
 		if b.IsConst() && b.Val == 0 {
 			return a
 		}
+	case OpURem:
+		// x % 2^k  =  x & (2^k - 1)
+		if b.IsConst() && b.Val != 0 && b.Val&(b.Val-1) == 0 {
+			return Bin(OpBAnd, a, ConstT(a.W, b.Val-1))
+		}
+	case OpUDiv:
+		if b.IsConst() && b.Val == 1 {
+			return a
+		}
 	case OpBAnd:
 		if a.IsConst() && a.Val == 0 || b.IsConst() && b.Val == 0 {
 			return ConstT(a.W, 0)
